@@ -882,7 +882,7 @@ def gen_kernel_cases(draw):
     spec = draw(kernel_specs())
     return {"k": spec, "form": draw(st.sampled_from(["batch", "single", "image"])),
             "update": draw(st.sampled_from([None, None, "values", "kernel", "kernel+values", "all", "none",
-                                            "update-supports"])),
+                                            "update-supports", "append", "append"])),
             "par2": draw(st.sampled_from([0.5, 2.0, 6.0])), "as_list": draw(st.booleans())}
 
 
@@ -933,6 +933,21 @@ def check_kernel_reproduces(case):
     verify(sup_in, val_in, xmat[np.ix_(perm, perm)], "initial")
     evals = 1
     up = case["update"]
+    if up == "append":
+        # a second model built from the first k supports, the rest appended by update(append=True):
+        # every value stays attached to its own support
+        if len(sup_in) < 2:
+            return Outcome(False, [spec, case["form"], up], ("append-needs-2-supports",), status="skipped")
+        k = 1 + int(np.random.default_rng(spec["pseed"] + 9).integers(0, len(sup_in) - 1))
+        m = darsia.KernelInterpolation(make_kernel(spec["ktype"], spec["par"]), supports=sup_in[:k].copy(),
+                                       values=val_in[:k].copy())
+        try:
+            m.update(supports=sup_in[k:].copy(), values=val_in[k:].copy(), append=True)
+        except Exception as e:
+            e.vf_tags = t
+            raise
+        verify(sup_in, val_in, xmat[np.ix_(perm, perm)], "after-append")
+        return Outcome(True, [spec, case["form"], up, k], (f"n{len(sup_in)}", "append", case["form"]), evals=2)
     if up is not None:
         # the model keeps its supports sorted; updated values refer to model.supports
         msup = np.asarray(m.supports, dtype=np.float64)
